@@ -64,8 +64,14 @@ func genFault(t *rapid.T, rpc string) rhpc.Fault {
 	case 0, 1:
 		return rhpc.Fault{}
 	case 2:
+		if rapid.IntRange(0, 3).Draw(t, "txpool") == 0 {
+			return rhpc.Fault{Kind: "txpool"}
+		}
 		return rhpc.Fault{Kind: "dial"}
-	case 3, 4, 5:
+	case 3:
+		// the host's chain grows while the renter's signatures are in flight
+		return rhpc.Fault{Kind: "advance", Dir: rhpc.R2H, Index: rapid.IntRange(0, 1).Draw(t, "idx"), A: rapid.IntRange(1, 3).Draw(t, "blocks")}
+	case 4, 5:
 		return rhpc.Fault{Kind: "cut", Dir: rapid.IntRange(0, 1).Draw(t, "dir"), Index: rapid.IntRange(0, 1).Draw(t, "idx")}
 	default:
 		f := rhpc.Fault{Kind: "corrupt", Dir: rapid.IntRange(0, 1).Draw(t, "dir"), Index: rapid.IntRange(0, 1).Draw(t, "idx")}
@@ -124,6 +130,7 @@ type c16World struct {
 	signer  *rhpc.FundAndSign
 	settled proto4.HostSettings
 
+	poolFails  bool
 	existingID types.FileContractID
 	existing   types.V2FileContract
 }
@@ -443,28 +450,42 @@ func (w *c16World) params(c C16Case) (allowance, collateral types.Currency, proo
 	return
 }
 
+// failingPool is a renter-side rhp4.TxPool that cannot produce the parent set.
+type failingPool struct{}
+
+func (failingPool) V2TransactionSet(types.ChainIndex, types.V2Transaction) (types.ChainIndex, []types.V2Transaction, error) {
+	return types.ChainIndex{}, nil, errors.New("rhpc: injected transaction pool failure")
+}
+
+func (w *c16World) pool(c C16Case) rhp4.TxPool {
+	if w.poolFails {
+		return failingPool{}
+	}
+	return w.R.CM
+}
+
 func (w *c16World) attempt(ctx context.Context, c C16Case) (c16Result, error) {
 	allowance, collateral, proof := w.params(c)
 	cs := w.R.CM.TipState()
 	t := w.host.T
 	switch c.RPC {
 	case "form":
-		res, err := rhp4.RPCFormContract(ctx, t, w.R.CM, w.signer, cs, w.prices, c16HostID.PublicKey(), w.settled.WalletAddress, proto4.RPCFormContractParams{
+		res, err := rhp4.RPCFormContract(ctx, t, w.pool(c), w.signer, cs, w.prices, c16HostID.PublicKey(), w.settled.WalletAddress, proto4.RPCFormContractParams{
 			RenterPublicKey: c16ContractKey.PublicKey(), RenterAddress: w.R.Addr(), Allowance: allowance, Collateral: collateral, ProofHeight: proof,
 		})
 		return c16Result{res.Contract, res.FormationSet, res.Cost}, err
 	case "renew":
-		res, err := rhp4.RPCRenewContract(ctx, t, w.R.CM, w.signer, cs, w.prices, w.settled.WalletAddress, w.existing, proto4.RPCRenewContractParams{
+		res, err := rhp4.RPCRenewContract(ctx, t, w.pool(c), w.signer, cs, w.prices, w.settled.WalletAddress, w.existing, proto4.RPCRenewContractParams{
 			ContractID: w.existingID, Allowance: allowance, Collateral: collateral, ProofHeight: proof,
 		})
 		return c16Result{res.Contract, res.RenewalSet, res.Cost}, err
 	case "refresh-full":
-		res, err := rhp4.RPCRefreshContractFullRollover(ctx, t, w.R.CM, w.signer, cs, w.prices, w.settled.WalletAddress, w.existing, proto4.RPCRefreshContractParams{
+		res, err := rhp4.RPCRefreshContractFullRollover(ctx, t, w.pool(c), w.signer, cs, w.prices, w.settled.WalletAddress, w.existing, proto4.RPCRefreshContractParams{
 			ContractID: w.existingID, Allowance: allowance, Collateral: collateral,
 		})
 		return c16Result{res.Contract, res.RenewalSet, res.Cost}, err
 	case "refresh-partial":
-		res, err := rhp4.RPCRefreshContractPartialRollover(ctx, t, w.R.CM, w.signer, cs, w.prices, w.settled.WalletAddress, w.existing, proto4.RPCRefreshContractParams{
+		res, err := rhp4.RPCRefreshContractPartialRollover(ctx, t, w.pool(c), w.signer, cs, w.prices, w.settled.WalletAddress, w.existing, proto4.RPCRefreshContractParams{
 			ContractID: w.existingID, Allowance: allowance, Collateral: collateral,
 		})
 		return c16Result{res.Contract, res.RenewalSet, res.Cost}, err
@@ -574,8 +595,12 @@ func faultLabel(f rhpc.Fault) string {
 		return "none"
 	case "dial":
 		return "dial"
+	case "txpool":
+		return "txpool"
 	case "cut":
 		return fmt.Sprintf("cut/%s%d", []string{"r2h", "h2r"}[f.Dir&1], f.Index)
+	case "advance":
+		return fmt.Sprintf("host-chain-advances/%s%d", []string{"r2h", "h2r"}[f.Dir&1], f.Index)
 	default:
 		return fmt.Sprintf("corrupt/%s%d/%s", []string{"r2h", "h2r"}[f.Dir&1], f.Index, f.Mut)
 	}
@@ -631,13 +656,14 @@ func runC16(c C16Case, cs *kit.CaseStats) error {
 	f := c.Fault
 	f.Dir &= 1
 	f.Index &= 1
-	auxOnly := f.Kind == "corrupt" && strings.HasPrefix(f.Mut, "aux-")
 
+	followUp := false
 	reps := 1 + mod(c.Reps, 4)
 	if kit.Thorough() {
 		reps = 1 + mod(c.Reps, 4)*6
 	}
 	for rep := 0; rep < reps; rep++ {
+		auxOnly := f.Kind == "corrupt" && strings.HasPrefix(f.Mut, "aux-")
 		hostBefore, err := w.H.View()
 		if err != nil {
 			return fmt.Errorf("INFRA: %v", err)
@@ -650,12 +676,27 @@ func runC16(c C16Case, cs *kit.CaseStats) error {
 		funded0, _, _ := w.hw.Counts()
 
 		var mitm *rhpc.MITM
+		var hookErr error
 		w.host.T.FailDial, w.host.T.Interpose = nil, nil
+		w.poolFails = f.Kind == "txpool"
 		switch f.Kind {
 		case "dial":
 			w.host.T.FailDial = func(int) error { return rhpc.ErrDial }
-		case "cut", "corrupt":
+		case "cut", "corrupt", "advance":
 			mitm = &rhpc.MITM{Ex: rhpc.Exchanges[exchangeOf(c.RPC)], Fault: f, Mutate: rhpc.FormationMutate}
+			mitm.Hook = func() {
+				// the host is blocked reading (or has not started): its chain and
+				// the independent node's grow, wallet and contractor follow
+				if _, _, err := w.grow(w.H.CM.TipState(), 1+mod(f.A-1, 3), rhpc.VoidAddr, nil, w.H.Node, w.I); err != nil {
+					hookErr = err
+					return
+				}
+				if err := w.H.Sync(); err != nil {
+					hookErr = err
+					return
+				}
+				hookErr = w.host.Contractor.WaitTip(w.H.CM)
+			}
 			dial := w.host.T.Dials()
 			w.host.T.Interpose = mitm.Interpose(dial)
 		}
@@ -673,6 +714,9 @@ func runC16(c C16Case, cs *kit.CaseStats) error {
 			if _, _, _, h := mitm.Status(); h != "" {
 				return fmt.Errorf("HARNESS: %s", h)
 			}
+		}
+		if hookErr != nil {
+			return fmt.Errorf("INFRA: advancing the host's chain: %v", hookErr)
 		}
 		added1, renewed1 := w.host.Contractor.Recorded()
 		funded1, _, _ := w.hw.Counts()
@@ -759,7 +803,17 @@ func runC16(c C16Case, cs *kit.CaseStats) error {
 			if d := renterBefore.Diff(renterAfter); d != "" {
 				return fmt.Errorf("%s failed on the renter side (%v) but the renter's wallet did not return to its pre-attempt state: %s", head, callErr, d)
 			}
-			return nil
+			if followUp {
+				return nil
+			}
+			// the renter, unaware of the host's pooled set, tries again without
+			// any fault: its released inputs now conflict with the host's pool
+			// (or the contract is already renewed), which the host only finds
+			// out after funding; that attempt is judged like any other
+			followUp = true
+			f = rhpc.Fault{}
+			reps = rep + 2
+			cs.Class("follow-up-attempt-after-host-commit")
 
 		default:
 			cs.Class("outcome=failure")
@@ -775,7 +829,7 @@ func runC16(c C16Case, cs *kit.CaseStats) error {
 			if d := renterBefore.Diff(renterAfter); d != "" {
 				return fmt.Errorf("%s failed (%v) and no contract was recorded, but the renter's wallet did not return to its pre-attempt state: %s", head, callErr, d)
 			}
-			if f.Kind == "" && c.Invalid == "" && c.Existing == "" && (c.Basis == "same" || c.Basis == "behind" || (c.Basis == "stale" && !c.OnFork)) {
+			if (f.Kind == "" || f.Kind == "advance") && !followUp && c.Invalid == "" && c.Existing == "" && (c.Basis == "same" || c.Basis == "behind" || (c.Basis == "stale" && !c.OnFork)) {
 				// nothing stands in the way of this exchange
 				return fmt.Errorf("non-vacuity: %s without any fault failed: %v", head, callErr)
 			}
@@ -834,7 +888,7 @@ func TestC16Enum(t *testing.T) {
 	for _, rpc := range c16RPCs {
 		base := C16Case{RPC: rpc, Allow: 30, Coll: 40, Proof: 7, Sectors: 1, Basis: "same", Reps: 1}
 		var faults []rhpc.Fault
-		faults = append(faults, rhpc.Fault{}, rhpc.Fault{Kind: "dial"})
+		faults = append(faults, rhpc.Fault{}, rhpc.Fault{Kind: "dial"}, rhpc.Fault{Kind: "txpool"})
 		for dir := 0; dir < 2; dir++ {
 			for idx := 0; idx < 2; idx++ {
 				faults = append(faults, rhpc.Fault{Kind: "cut", Dir: dir, Index: idx})
@@ -866,6 +920,22 @@ func TestC16Enum(t *testing.T) {
 		for _, inv := range c16Invalid {
 			c := base
 			c.Invalid = inv
+			run(c)
+		}
+		for _, b := range []string{"same", "behind", "stale"} {
+			for idx := 0; idx < 2; idx++ {
+				for _, unconf := range []bool{false, true} {
+					c := base
+					c.Basis, c.K, c.Unconf, c.Coll = b, 1, unconf, 90
+					c.Fault = rhpc.Fault{Kind: "advance", Dir: rhpc.R2H, Index: idx, A: 2}
+					run(c)
+				}
+			}
+		}
+		for _, m := range []string{"parent-sig-flip", "parents-drop"} {
+			c := base
+			c.Unconf = true
+			c.Fault = rhpc.Fault{Kind: "corrupt", Dir: rhpc.R2H, Index: 0, Mut: m}
 			run(c)
 		}
 		if rpc != "form" {
